@@ -59,12 +59,14 @@ def callOf (api : String) (args : List String) : Option (String × Call) :=
   | "nsync_cv_wait_with_deadline", _ :: m :: _ => some (m, .wait)
   | "nsync_mu_wait_with_deadline", m :: _ => some (m, .wait)
   | "nsync_wait_n", m :: _ => if m == "-" then none else some (m, .wait)
+  | "nsync_mu_debug_state", m :: _ => some (m, .observe)
+  | "nsync_mu_debug_state_and_waiters", m :: _ => some (m, .observe)
   | _, _ => none
 
 def isTracked (api : String) : Bool :=
   api ∈ ["nsync_mu_lock", "nsync_mu_rlock", "nsync_mu_trylock", "nsync_mu_rtrylock", "nsync_mu_unlock",
          "nsync_mu_unlock_without_wakeup", "nsync_mu_runlock", "nsync_cv_wait_with_deadline",
-         "nsync_mu_wait_with_deadline", "nsync_wait_n"]
+         "nsync_mu_wait_with_deadline", "nsync_wait_n", "nsync_mu_debug_state", "nsync_mu_debug_state_and_waiters"]
 
 def step (d : DState) (line : String) : DState × String :=
   match line.trimAscii.toString.splitOn " " with
